@@ -108,13 +108,26 @@ pub struct Buffers {
 
 impl Buffers {
     pub fn new() -> Buffers {
+        Buffers::with_content(0)
+    }
+    /// content 0 = filler pattern, 1 = all zero, 2 = all 0xFF, 3 = pattern with a leading zero byte
+    pub fn with_content(content: u8) -> Buffers {
+        let shape = |mut v: Vec<u8>| -> Vec<u8> {
+            match content {
+                1 => v.iter_mut().for_each(|b| *b = 0),
+                2 => v.iter_mut().for_each(|b| *b = 0xff),
+                3 => v[0] = 0,
+                _ => {}
+            }
+            v
+        };
         let mut rp = [0u8; 32];
-        rp.copy_from_slice(&fill_bytes(32, 1));
+        rp.copy_from_slice(&shape(fill_bytes(32, 1)));
         Buffers {
             rp,
-            aaguid: fill_bytes(32, 2),
-            id: fill_bytes(70000, 3),
-            pk: fill_bytes(300, 4),
+            aaguid: shape(fill_bytes(32, 2)),
+            id: shape(fill_bytes(70000, 3)),
+            pk: shape(fill_bytes(1024, 4)),
         }
     }
 }
@@ -255,7 +268,7 @@ pub fn run(ctx: &'static Ctx) {
     ctx.rule("state = (flavour, flag subset, counter, attested data present, aaguid/id/public-key lengths, extension member choices); each is serialised by the real code and compared byte for byte with the WebAuthn layout; non-trivial = attested data or extensions present");
     let bufs = Buffers::new();
     let ids = id_lengths();
-    let pks = [0usize, 32, 77, 100, 256];
+    let pks = [0usize, 1, 32, 77, 100, 256, 600, 620, 621, 622, 623, 636, 637, 638, 639, 640, 641, 660, 700, 1000];
     let aag = [0usize, 16, 17];
     for mc in [true, false] {
         let exts = ext_choices(mc);
@@ -270,7 +283,7 @@ pub fn run(ctx: &'static Ctx) {
             let ext_sel: Vec<usize> = if ctx.thorough() { (0..exts.len()).collect() } else { vec![0, 1, exts.len() / 2, exts.len() - 1] };
             let rad = [flagsets.len() as u64, counters.len() as u64, ids.len() as u64, pks.len() as u64, aag.len() as u64, ext_sel.len() as u64];
             let (exts2, bufs2) = (&exts, &bufs);
-            sweep(ctx, &format!("{} layout: length grid", fl), product(&rad), "flags x counters x every credential-id length 0..=700,65535,65536,70000 x public-key lengths x aaguid lengths x extension choices", |idx, l| {
+            sweep(ctx, &format!("{} layout: length grid", fl), product(&rad), "flags x counters x every credential-id length 0..=700,65535,65536,70000 x 20 public-key lengths (0..=1000, dense around the 639-byte remainder) x aaguid lengths x extension choices", |idx, l| {
                 let mut d = [0u64; 6];
                 unrank(idx, &rad, &mut d);
                 let c = Case {
@@ -317,6 +330,31 @@ pub fn run(ctx: &'static Ctx) {
                 l.fail(ctx, idx, v, || case_json(&c));
             }
         });
+    }
+    // content classes of the opaque parts: all zero, all 0xFF, leading zero byte
+    for content in 1..=3u8 {
+        let cb = Buffers::with_content(content);
+        for mc in [true, false] {
+            let exts = ext_choices(mc);
+            let red_ids = [0usize, 1, 16, 255, 256, 544, 545, 560, 700];
+            let rad = [16u64, 2, if mc { 1 + red_ids.len() as u64 } else { 1 }, exts.len() as u64];
+            let (exts2, cb2) = (&exts, &cb);
+            sweep(ctx, &format!("{} layout: content class {}", if mc { "mc" } else { "ga" }, content), product(&rad), "rp-id hash, aaguid, credential id and public key all zero / all 0xFF / with a leading zero byte x flags x 2 counters x attested lengths x every extension choice", move |idx, l| {
+                let mut d = [0u64; 4];
+                unrank(idx, &rad, &mut d);
+                let c = Case { mc, flags: d[0] as u8, count: [0u32, 0xffff_ffff][d[1] as usize], attested: d[2] != 0, id: if d[2] != 0 { red_ids[d[2] as usize - 1] } else { 0 }, pk: 77, aaguid: 16, ext: exts2[d[3] as usize].clone() };
+                l.nontrivial += 1;
+                let v = check(&c, cb2);
+                l.bump(if expected(&c, cb2).is_some() { "fits" } else { "must fail" });
+                if !v.ok {
+                    l.fail(ctx, idx, v, || {
+                        let mut j = case_json(&c);
+                        j["content"] = json!(content);
+                        j
+                    });
+                }
+            });
+        }
     }
     {
         let mut items: Vec<(String, Box<dyn Fn() -> String + Sync>)> = Vec::new();
@@ -427,5 +465,5 @@ pub fn replay_canonical(case: &Value) -> Verdict {
 }
 
 pub fn replay(case: &Value) -> Verdict {
-    check(&case_from(case), &Buffers::new())
+    check(&case_from(case), &Buffers::with_content(case["content"].as_u64().unwrap_or(0) as u8))
 }
